@@ -10,7 +10,7 @@
    Any `Num` instance; no arithmetic fact is used. *)
 From Coq Require Import ZArith Bool List Lia.
 From TV Require Import Num.Num Gen.BlockGen Model.Block Model.Engine Model.FiltersBase Gen.FiltersGen Model.ItemFilters Model.BlockAlg.
-From TV Require Import Proofs.EngineMemo Proofs.EngineBlind Proofs.EngineAbs Proofs.BlockBlind Proofs.ItemFilters.
+From TV Require Import Proofs.EngineMemo Proofs.EngineDirty Proofs.EngineHidden Proofs.EngineBlind Proofs.EngineAbs Proofs.BlockBlind Proofs.ItemFiltersBase Proofs.ItemFiltersHidden.
 Import ListNotations.
 Close Scope Z_scope.
 
@@ -453,5 +453,116 @@ Section Blind.
         exists (2 + f0). intros fuel. cbn [Nat.add answer]. fold co. rewrite Hf. fold (answered ans P items).
         destruct (inflow_step P st (ai_item a) co) as [s1 r]. cbn [fst snd].
         destruct (inflow_loop P s1 (answered ans P items)) as [s2 rs]. cbn [fst snd combine rev]. rewrite <- app_assoc. reflexivity.
+  Qed.
+
+  (* ------------------------------------------------------------------ C05: SetsZeroOnHidden *)
+
+  (* Layout::with_order(i) *)
+  Definition b_zeroish (l : BLayout T) : Prop :=
+    exists o, l = mkLay o zero zero sz_zero sz_zero sz_zero rect_zero rect_zero rect_zero.
+
+  Section Zero.
+    Variable st : list (BStyle T).
+    Notation SZ := (SZH (BStyle T) (BIn T) (ChildOut T) (BLayout T) bs_is_none b_zeroish st).
+    (* the item's node is not display:none *)
+    Definition NOK (a : AItem) : Prop := forall sc, nth_error st (ai_node a) = Some sc -> bs_is_none sc = false.
+
+    Lemma content_width_szh aw items : forall mx (k : T -> BAlg), (forall w, SZ (k w)) -> SZ (content_width_alg aw items mx k).
+    Proof.
+      induction items as [|a items IH]; intros mx k Hk; cbn [content_width_alg]; [apply Hk|].
+      destruct (is_absi a); [apply IH; exact Hk|].
+      destruct (s_w (sz_maybe_clamp (it_size (ai_item a)) (it_min_size (ai_item a)) (it_max_size (ai_item a)))).
+      - apply IH; exact Hk.
+      - apply SZH_query. intros o. apply IH; exact Hk.
+    Qed.
+
+    Lemma inflow_szh P items : Forall NOK items ->
+      forall (k : State T -> list (AItem * ItemResult T) -> BAlg),
+        (forall s ars, Forall NOK (map fst ars) -> SZ (k s ars)) ->
+      forall s acc, Forall NOK (map fst acc) -> SZ (inflow_alg P s items acc k).
+    Proof.
+      induction 1 as [|a items Ha Hl IH]; intros k Hk s acc Hacc; cbn [inflow_alg].
+      - apply Hk. rewrite map_rev. apply Forall_rev. exact Hacc.
+      - destruct (is_absi a).
+        + apply IH; [exact Hk|]. cbn [map fst]. constructor; assumption.
+        + apply SZH_query. intros o. apply SZH_set.
+          * intros sc Hn Hnone. rewrite (Ha sc Hn) in Hnone. discriminate.
+          * apply IH; [exact Hk|]. cbn [map fst]. constructor; assumption.
+    Qed.
+
+    Lemma only_child_szh c (K : BSize T -> BAlg) x :
+      (forall sc, nth_error st c = Some sc -> bs_is_none sc = false) -> OnlyChild c K x -> (forall v, SZ (K v)) -> SZ x.
+    Proof.
+      intros Hc Hx HK. induction Hx as [v|i k Hk IHk|l a Ha IHa]; [apply HK|apply SZH_query; exact IHk|].
+      apply SZH_set; [|exact IHa]. intros sc Hn Hnone. rewrite (Hc sc Hn) in Hnone. discriminate.
+    Qed.
+
+    Lemma abs_pass_szh abs_child (Hloc : AbsChildLocal abs_child) s sz ars : Forall NOK (map fst ars) ->
+      forall (k : BSize T -> BAlg), (forall v, SZ (k v)) -> forall content, SZ (abs_pass abs_child s sz ars content k).
+    Proof.
+      induction ars as [|[a r] ars IH]; intros Hok k Hk content; cbn [abs_pass]; [apply Hk|].
+      cbn [map fst] in Hok. inversion Hok as [|? ? Ha Hl]; subst.
+      destruct (is_absi a); [|apply IH; assumption].
+      eapply only_child_szh; [exact Ha|apply Hloc|]. intros v. apply IH; assumption.
+    Qed.
+
+    Lemma hidden_pass_szh (k : BAlg) : SZ k -> forall flags order, SZ (hidden_pass flags order k).
+    Proof.
+      intros Hk. induction flags as [|h flags IH]; intros order; cbn [hidden_pass]; [exact Hk|].
+      destruct h; [|apply IH]. apply SZH_query. intros _. apply SZH_set; [|apply IH].
+      intros _ _ _. exists (Z.of_nat order). reflexivity.
+    Qed.
+  End Zero.
+
+  Theorem block_alg_sets_zero_on_hidden pre abs_child : AbsChildLocal abs_child ->
+    SetsZeroOnHidden (BStyle T) (BIn T) (ChildOut T) (BLayout T) bs_is_none (block_alg pre abs_child) b_zeroish.
+  Proof.
+    intros Hloc s st i. unfold block_alg, block_inner_alg.
+    set (inp := pre s i). set (binp := mkInput (bi_known inp) (bi_parent inp) (bi_collapsible inp)).
+    assert (Hok : Forall (NOK st) (block_alg_items st (block_node_inner_size s binp))).
+    { apply Forall_forall. intros a Hin sc Hn. destruct (alg_items_sound st _ a Hin) as (Hn' & Hv & _).
+      rewrite Hn' in Hn. injection Hn as <-. exact Hv. }
+    assert (Hcont : forall outer_w,
+      SZH (BStyle T) (BIn T) (ChildOut T) (BLayout T) bs_is_none b_zeroish st
+        (match is_compute_size (bi_mode inp), s_h (bi_known inp) with
+         | true, Some h => Engine.Ret _ _ _ (from_outer_size (mkSize outer_w h))
+         | _, _ =>
+             let P := block_params s binp outer_w in
+             inflow_alg P (init_state P) (block_alg_items st (block_node_inner_size s binp)) []
+               (fun stF ars =>
+                  let io := inflow_finish P stF (map snd ars) in
+                  let outer_h := block_outer_height s binp (io_height io) in
+                  let sz := mkSize outer_w outer_h in
+                  if is_compute_size (bi_mode inp) then Engine.Ret _ _ _ (from_outer_size sz)
+                  else
+                    abs_pass abs_child s sz ars sz_zero
+                      (fun abs_content =>
+                         hidden_pass (map (s_hidden bs_bgm) st) 0
+                           (Engine.Ret _ _ _ (mkOut sz (sz_fmax (io_content_size io) abs_content)
+                                       (fst (block_output_margins s binp io)) (snd (block_output_margins s binp io))
+                                       (block_can_collapse_through s binp (io_results io))))))
+         end)).
+    { intros outer_w.
+      assert (Hloop : SZH (BStyle T) (BIn T) (ChildOut T) (BLayout T) bs_is_none b_zeroish st
+        (let P := block_params s binp outer_w in
+         inflow_alg P (init_state P) (block_alg_items st (block_node_inner_size s binp)) []
+           (fun stF ars =>
+              let io := inflow_finish P stF (map snd ars) in
+              let outer_h := block_outer_height s binp (io_height io) in
+              let sz := mkSize outer_w outer_h in
+              if is_compute_size (bi_mode inp) then Engine.Ret _ _ _ (from_outer_size sz)
+              else
+                abs_pass abs_child s sz ars sz_zero
+                  (fun abs_content =>
+                     hidden_pass (map (s_hidden bs_bgm) st) 0
+                       (Engine.Ret _ _ _ (mkOut sz (sz_fmax (io_content_size io) abs_content)
+                                   (fst (block_output_margins s binp io)) (snd (block_output_margins s binp io))
+                                   (block_can_collapse_through s binp (io_results io)))))))).
+      { cbv zeta. apply inflow_szh; [exact Hok| |constructor].
+        intros s' ars Hars. destruct (is_compute_size (bi_mode inp)); [apply SZH_ret|].
+        apply abs_pass_szh; [exact Hloc|exact Hars|]. intros v. apply hidden_pass_szh. apply SZH_ret. }
+      destruct (is_compute_size (bi_mode inp)); [|exact Hloop].
+      destruct (s_h (bi_known inp)); [apply SZH_ret|exact Hloop]. }
+    destruct (s_w (bi_known inp)); [apply Hcont|]. apply content_width_szh. intros w. apply Hcont.
   Qed.
 End Blind.
